@@ -21,7 +21,7 @@ def main():
     dst = os.path.join(VERIF, 'seeded', sid)
     os.makedirs(dst, exist_ok=True)
     so = os.path.join(wt, 'seed_out')
-    for f in os.listdir(so):
+    for f in (os.listdir(so) if os.path.isdir(so) else []):
         p = os.path.join(so, f)
         if os.path.isfile(p) and os.path.getsize(p) < 400000 and not f.startswith('demo_') and f not in ('demo', 'demo_san', 'demo_so'):
             shutil.copy(p, os.path.join(dst, f))
